@@ -1,7 +1,8 @@
 (** * C04 — shape fidelity: nothing moves more than half a pixel, nothing is lost.
 
-    Clause 1 (every output vertex is the pixel centre of an input vertex): PROVENANCE -- to be cited here from
-    Snap/Proofs*.v (snap-prover's [vertex_provenance]); the index part is C03_outputs_are_hot_centroids.
+    Clause 1 (every output vertex is the pixel centre of an input vertex): FULL, [C04_clause1_vertex_provenance]
+    at the end of this file (provenance through every stage of snap.go joined with the index lemma
+    "routed points are centroids of pixels of input vertices").
 
     Clause 2 (every point of every output edge within half a pixel, Chebyshev, of the input boundary):
     - TRUE for routed edges, i.e. for the edges between consecutive centres of the chain an input edge is
@@ -140,3 +141,16 @@ Proof.
   cbv zeta. split; [reflexivity |]. split; [vm_compute; repeat split; discriminate |].
   split; [right; reflexivity |]. vm_compute. split; reflexivity.
 Qed.
+
+(** ** clause 1: every output vertex is the pixel centre of some vertex of the input polygon — for every
+    polygon (valid or not), every requested level 0 < L <= deepest, every configuration.
+    [pixelOf g L v] is the level-L pixel containing v, [quadCentroid] its centre. *)
+From Texel Require Import Index.ProofsGrid Snap.ProofsJoinC04.
+Theorem C04_clause1_vertex_provenance : forall g P levels cfg r L ps p,
+  0 < gres g -> snapPolygon g P levels cfg = Ok r -> In (L, ps) r -> (0 < L <= gdeep g)%nat ->
+  In p (concat (concat ps)) ->
+  exists v, In v (concat P) /\
+            p = quadCentroid g L (fst (pixelOf g L v)) (snd (pixelOf g L v)) /\
+            containsPoint v (quadExtent g L (fst (pixelOf g L v)) (snd (pixelOf g L v))) = true.
+Proof. exact output_vertex_is_pixel_centre_of_input_vertex. Qed.
+Print Assumptions C04_clause1_vertex_provenance.
